@@ -202,6 +202,11 @@ func (s State) medianTimestamp() time.Time {
 		return ts[len(ts)/2]
 	}
 	l, r := ts[len(ts)/2-1], ts[len(ts)/2]
+	// time.Time.Sub saturates at ~292 years; for timestamps further apart than
+	// that, compute the midpoint from the Unix seconds instead
+	if d := uint64(r.Unix()) - uint64(l.Unix()); d >= 1<<32 {
+		return time.Unix(l.Unix()+int64(d/2), int64(d%2)*500_000_000)
+	}
 	return l.Add(r.Sub(l) / 2)
 }
 
